@@ -63,6 +63,15 @@ Print Assumptions C03_canonical_suffices.
 Print Assumptions C03_region.
 Print Assumptions C03_table_value.
 
+(* [uspfs ... = None] would be a failed assertion of the evaluator on a decoded solution: it does not
+   happen, for any policy and any cost vector, so the hypothesis [uspfs ... = Some E] of the theorems
+   above is always satisfied (the decoded trees, their validity and finite cost: C04) *)
+From SR Require Import Proofs.AllAnyProofs.
+Theorem C03_uspfs_returns : forall S c rp extended O, nn (c_hgt c) -> leaves_ok S O ->
+  exists E, uspfs S c rp extended O = Some E.
+Proof. exact uspfs_returns. Qed.
+Print Assumptions C03_uspfs_returns.
+
 (* outside the region optimiser and evaluator differ at a single node; non-vacuity example *)
 Example C03_incoherent_refuted := uincoherent_step.
 Example C03_example := uspfs_example.
